@@ -2,7 +2,10 @@ class Writer:
   def __str__(self):
     return "#" + str(self.spacer) + str(self.content)
 
-  def to_list(self):
+  def to_str(self, add_virtual_commentary=True):
+    return str(self)
+
+  def to_list(self, add_virtual_commentary=True):
     """Convert the content of the comment line to a list.
 
     The generic to_list() method of Line is overwritten,
